@@ -41,6 +41,10 @@ def cases(tier, rng):
         so = _strahler(ds, [1] * n)
         yield {"k": 1801, "args": [ds, sq, so, [rng.choice([1, 2, -1, -2, 3])]], "group": f"{tag}-streamorder"}
         yield {"k": 1802, "args": [ds, sq, main, upa, [rng.choice([1, 3, 8])]], "group": f"{tag}-area"}
+        # fractional cell areas (quarters; the model works on the values scaled by 4)
+        wq = [rng.choice([1, 1, 2, 3, 5]) for _ in range(n)]
+        upq = [(-9999 * 4 if ds[i] < 0 else sum(wq[x] for x in range(n) if ds[x] >= 0 and i in _path(ds, x))) for i in range(n)]
+        yield {"k": 1802, "args": [ds, sq, _main(ds, upq, 0), upq, [rng.choice([4, 6, 8, 9, 12])]], "call2": {"scale": 4}, "group": f"{tag}-area-fractional"}
         depth = rng.choice([1, 1, 2, 3])
         if n <= 40 and rng.random() < 0.7:
             # upstream areas without ties (weights 2^x are exact in binary64 up to n = 40): the choice among
@@ -100,7 +104,8 @@ def impl(case):
         if k == 1801:
             return fin(*call_impl(pb.subbasins_streamorder, arr, sq, np.array(a[2], dtype=np.uint8), None, a[3][0]))
         if k == 1802:
-            return fin(*call_impl(pb.subbasins_area, arr, sq, ds_array(a[2]), np.array(a[3], dtype=np.float64), float(a[4][0])))
+            sc = float((case.get("call2") or {}).get("scale", 1))
+            return fin(*call_impl(pb.subbasins_area, arr, sq, ds_array(a[2]), np.array(a[3], dtype=np.float64) / sc, float(a[4][0]) / sc))
         if k == 1803:
             r = fin(*call_impl(pb.subbasins_pfafstetter, np.array(a[2], dtype=np.int32), arr, sq, ds_array(a[3]),
                                np.array(a[4], dtype=np.float64), None, a[7][0]))
